@@ -198,7 +198,27 @@ func (c *Ctx) subsUpdateSites(fn *ssa.Function) []subsUpdateSite {
 		if len(args) < 4 {
 			continue
 		}
-		out = append(out, subsUpdateSite{call, args[2], mapLiteralKeys(args[3])})
+		// the write moved into a thin helper that receives the update (`t.saveSubUpdate(uid, isChan, update)`):
+		// the map is what the helper's only caller passes
+		m := args[3]
+		for d := 0; d < 2; d++ {
+			p, isP := core.Strip(m).(*ssa.Parameter)
+			if !isP {
+				break
+			}
+			callers := c.callersOf(p.Parent())
+			idx := -1
+			for i, q := range p.Parent().Params {
+				if q == p {
+					idx = i
+				}
+			}
+			if len(callers) != 1 || idx < 0 || callers[0].Site.Common().IsInvoke() || idx >= len(callers[0].Site.Common().Args) {
+				break
+			}
+			m = callers[0].Site.Common().Args[idx]
+		}
+		out = append(out, subsUpdateSite{call, args[2], mapLiteralKeys(m)})
 	}
 	return out
 }
